@@ -111,6 +111,10 @@ pub open spec fn chain_k(rrs: Seq<ResourceRecord>, q: DomainName, k: int) -> boo
     &&& forall|i: int| k <= i < rrs.len() ==> (#[trigger] rrs[i]).name == reached(rrs, q, k)
 }
 pub open spec fn chain_ok(rrs: Seq<ResourceRecord>, q: DomainName) -> bool { exists|k: int| #[trigger] chain_k(rrs, q, k) }
+pub open spec fn qmatch(t: RecordType, q: QueryType) -> bool { q == QueryType::Wildcard || q == QueryType::Record(t) }
+pub open spec fn typed_ok(rrs: Seq<ResourceRecord>, q: QueryType) -> bool {
+    forall|i: int| 0 <= i < rrs.len() ==> (#[trigger] rrs[i]).rtype_with_data is CNAME || qmatch(spec_rtype_of(rrs[i].rtype_with_data), q)
+}
 pub open spec fn resolved_rrs(r: ResolvedRecord) -> Seq<ResourceRecord> {
     match r {
         ResolvedRecord::Authoritative { rrs, .. } => rrs@,
@@ -136,6 +140,7 @@ pub async fn resolve(is_recursive: bool, protocol_mode: ProtocolMode, upstream_d
     zones: &ZonesGuard, cache: &SharedCache, question: &Question) -> (r: (Metrics, Result<ResolvedRecord, ResolutionError>))
     requires upstream_dns_port == configured_port(), forward_address is Some ==> forward_address->Some_0 == configured_forwarder(), // [C18:the_resolver_is_given_the_configured_port_and_forwarder]
     ensures question.qtype != QueryType::Wildcard && r.1 is Ok ==> chain_ok(resolved_rrs(r.1->Ok_0), question.name),
+            r.1 is Ok ==> typed_ok(resolved_rrs(r.1->Ok_0), question.qtype),
 { unimplemented!() }
 #[verifier::external_body]
 fn prune_cache_and_update_metrics(cache: &SharedCache) { unimplemented!() }
@@ -200,7 +205,8 @@ MAIN_SPECS = {
         r.header.rcode == Rcode::NoError || r.header.rcode == Rcode::NameError || r.header.rcode == Rcode::Refused || r.header.rcode == Rcode::ServerFailure,
         r.additional@.len() == 0,
         // the answer section holds only records for the question name or its CNAME chain (ANY questions: see unit local)
-        query.questions@.len() == 1 && query.questions@[0].qtype != QueryType::Wildcard ==> chain_ok(r.answers@, query.questions@[0].name), // [C09:answer_section_holds_only_the_question_name_and_its_alias_chain]""",
+        query.questions@.len() == 1 && query.questions@[0].qtype != QueryType::Wildcard ==> chain_ok(r.answers@, query.questions@[0].name), // [C09:answer_section_holds_only_the_question_name_and_its_alias_chain]
+        query.questions@.len() == 1 ==> typed_ok(r.answers@, query.questions@[0].qtype), // [C09,C10:answer_section_holds_only_aliases_and_records_of_the_asked_type]""",
         "entry": BU + " broadcast use group_answer;"},
     "handle_raw_message": {"props": ["C09"],
         "contract": """    requires buf@.len() <= 0xffff, args.upstream_dns_port == configured_port(), args.forward_address is Some ==> args.forward_address->Some_0 == configured_forwarder(),
